@@ -275,7 +275,13 @@ def _dual(ctx: Ctx, item):
     co.dual_pass(ctx, "C12", item[0])
 
 
+def _sweep(ctx: Ctx, item):
+    from .. import clientopts as co
+    co.sweep_through_client(ctx, "C12", item[0], item[1], item[2], compare=True)
+
+
 def run(ctx: Ctx):
+    pmap(ctx, _sweep, [(k, part, 4) for k in aio.CLIENT_KINDS for part in range(4)])
     pmap(ctx, _dual, [(k,) for k in aio.CLIENT_KINDS])
     pmap(ctx, _clients, [None])
     pmap(ctx, _serial_scenarios, [(0,)])
@@ -285,6 +291,11 @@ def run(ctx: Ctx):
 
 
 def replay(ctx: Ctx, case):
+    if "sweep_client" in case:
+        sub = Ctx(ctx.pid)
+        sub.known_open = {}
+        _sweep(sub, (case["sweep_client"], case["part"], case["parts"]))
+        return [(b, v["what"], v["case"]) for b, v in sub.found.items()]
     if case.get("dual"):
         from .. import clientopts as co
         return co.dual_replay("C12", "C12", case)
